@@ -59,6 +59,8 @@ class Resolver:
 
 
 def _invert_type(t: Union[str, List[str]]):
+    if isinstance(t, str):
+        t = [t]
     return {'type': list(set(ALL_TYPES) - set(t))}
 
 
